@@ -239,7 +239,6 @@ Section EntryGlue.
 Variable M : Type.
 Variable m_index : M -> Z.                    (* Match.RuneIndex *)
 Variable search : list Z -> Z -> option M.
-Variable search_quick : list Z -> Z -> bool.
 
 (* a match found from start s begins at or after s, inside the text (C07/C08) *)
 Definition enp_in_range : Prop :=
@@ -251,10 +250,6 @@ Definition enp_in_range : Prop :=
 Definition enp_start_indep : Prop :=
   forall r s s', 0 <= s <= s' -> s' <= zlen r ->
     (forall m, search r s = Some m -> s' <= m_index m) -> search r s' = search r s.
-
-(* the bool-only program answers "is there a match" (C02_quick_program_sound) *)
-Definition enp_quick_agrees : Prop :=
-  forall r s, search_quick r s = match search r s with Some _ => true | None => false end.
 
 (* a match starts at rune position q *)
 Definition enp_starts (r : list Z) (q : nat) : Prop :=
@@ -438,6 +433,13 @@ Qed.
 
 (* ---- MatchString ---- *)
 
+Variable search_quick : list Z -> Z -> bool.
+
+(* the bool-only program answers "is there a match" (C02_quick_program_sound) *)
+Definition enp_quick_agrees : Prop :=
+  forall r s, search_quick r s = match search r s with Some _ => true | None => false end.
+
+
 Lemma enp_decode_with_start b c :
   0 < c ->
   (exists k', (k' <= length (decode b))%nat /\ c = Z.of_nat (boundary b k') /\
@@ -482,3 +484,70 @@ Proof.
 Qed.
 
 End EntryGlue.
+
+(* ================================================================================================
+   The headline: for every program data the constructor accepts
+   ================================================================================================ *)
+
+Lemma enp_flt_hyp_of_constructor
+  (M : Type) (m_index : M -> Z) (search : list Z -> Z -> option M) (c : en_code) (flt : option en_filter) :
+  en_new_filter c = Ok flt ->
+  (en_has_opcode (S (length (cd_codes c))) (cd_codes c) G_Start = Ok false -> enp_start_indep M m_index search) ->
+  (forall o f, cd_opts c = Some o -> flt = Some f ->
+     forall b q, enp_starts M m_index search (runes_of b) q -> enp_code_fact o (runes_of b) q) ->
+  enp_flt_hyp M m_index search (cd_rtl c) flt.
+Proof.
+  intros Hc HG HF. right. destruct flt as [f|]; [|exact I].
+  destruct (enp_new_filter_inv c f Hc) as (o & Ho & Hr & Hs & Hg & Hsel).
+  destruct (enp_select_ok o f (enp_guard_of o Hg) Hsel) as [Hok Hfact].
+  split; [exact Hok|]. split; [exact (HG Hs)|].
+  intros b q Hst. apply Hfact. exact (HF o f Ho eq_refl b q Hst).
+Qed.
+
+Theorem enp_string_entry_equals_rune_entry
+  (M : Type) (m_index : M -> Z) (search : list Z -> Z -> option M) (search_quick : list Z -> Z -> bool)
+  (c : en_code) (flt : option en_filter) :
+  en_new_filter c = Ok flt ->
+  enp_in_range M m_index search ->
+  enp_quick_agrees M search search_quick ->
+  (en_has_opcode (S (length (cd_codes c))) (cd_codes c) G_Start = Ok false -> enp_start_indep M m_index search) ->
+  (forall o f, cd_opts c = Some o -> flt = Some f ->
+     forall b q, enp_starts M m_index search (runes_of b) q -> enp_code_fact o (runes_of b) q) ->
+  forall b : list Z,
+    let rtl := cd_rtl c in
+    let r := runes_of b in
+    en_find_string_match M search rtl flt b = en_find_runes_match M search rtl r /\
+    (forall k, (k <= length r)%nat ->
+       en_find_string_match_starting_at M search rtl flt b (Z.of_nat (boundary b k)) =
+       en_find_runes_match_starting_at M search rtl r (Z.of_nat k)) /\
+    (forall i, i < 0 ->
+       en_find_string_match_starting_at M search rtl flt b i = en_find_runes_match_starting_at M search rtl r i) /\
+    (forall i, zlen b < i -> en_find_string_match_starting_at M search rtl flt b i = Err ERR_START_TOO_LARGE) /\
+    (forall i, 0 <= i <= zlen b -> en_is_boundary b i = false ->
+       en_find_string_match_starting_at M search rtl flt b i = Err ERR_START_NOT_BOUNDARY) /\
+    en_match_string search_quick rtl flt b = en_match_runes search_quick rtl r.
+Proof.
+  intros Hc HR HQ HG HF b rtl r.
+  pose proof (enp_flt_hyp_of_constructor M m_index search c flt Hc HG HF) as HH. fold rtl in HH.
+  split; [apply (enp_find_string_match M m_index search rtl flt b HR HH)|].
+  split; [intros k Hk; apply (enp_starting_at_boundary M m_index search rtl flt b k HR HH);
+          unfold r in Hk; rewrite enb_runes_length in Hk; exact Hk|].
+  split; [intros i Hi; apply (enp_starting_at_negative M m_index search rtl flt b i HR HH Hi)|].
+  split; [intros i Hi; apply (proj1 (enp_starting_at_errors M search rtl flt b i) Hi)|].
+  split; [intros i Hi Hb; apply (proj2 (enp_starting_at_errors M search rtl flt b i) Hi Hb)|].
+  apply (enp_match_string M m_index search rtl flt search_quick b HR HQ HH).
+Qed.
+
+(* the candidate the string entry points start from, spelled out (soundness + transparency of
+   findStringPrefixCandidate): never a Fuel/Crash answer; "no candidate" means no match from the start;
+   a candidate is the byte offset of a rune at or after the start with the same search result *)
+Theorem enp_prefix_candidate_sound
+  (M : Type) (m_index : M -> Z) (search : list Z -> Z -> option M) (rtl : bool) (flt : option en_filter)
+  (b : list Z) (k : nat) :
+  enp_in_range M m_index search -> enp_flt_hyp M m_index search rtl flt -> (k <= length (decode b))%nat ->
+  (en_prefix_candidate rtl flt b (Z.of_nat (boundary b k)) = Ok (0, false) /\
+   search (runes_of b) (Z.of_nat k) = None) \/
+  (exists k', (k' <= length (decode b))%nat /\
+     en_prefix_candidate rtl flt b (Z.of_nat (boundary b k)) = Ok (Z.of_nat (boundary b k'), true) /\
+     search (runes_of b) (Z.of_nat k') = search (runes_of b) (Z.of_nat k)).
+Proof. apply enp_prefix_candidate. Qed.
